@@ -284,7 +284,7 @@ var DefaultKinds = []Kind{KFile, KFile, KFile, KSymlink, KFifo, KChar, KBlock}
 var sizePoolSmall = []int{0, 0, 1, 17, 100, 1000}
 var sizePoolBig = []int{0, 1, 17, 1000, 32767, 32768, 32769, 65536, 65537, 100003}
 
-var mtimePool = []int64{0, 1, 1_000_000_000, 1_500_000_000_123_456_789, 1_700_000_000_000_000_001, 4_102_444_800_000_000_000, 946_684_800_999_999_999}
+var mtimePool = []int64{0, 1, -1, -1_500_000_000_123_456_789, 1_000_000_000, 1_500_000_000_123_456_789, 1_700_000_000_000_000_001, 4_102_444_800_000_000_000, 946_684_800_999_999_999}
 
 func genName(t *rapid.T, cfg *TreeCfg, label string, siblingDirs []string) string {
 	pool := cfg.Names
